@@ -16,13 +16,29 @@ with the multiplication operator, to construct values such as `11 * e(-21)`.
 """
 
 from enum import Enum
-from decimal import Decimal
+from decimal import Decimal, localcontext
+from contextlib import contextmanager
 from typing import Optional, Any, Union, Tuple
 from pydantic import BaseModel, Field
 from pydantic.dataclasses import dataclass
 
 
 EPSILON = 20
+
+
+@contextmanager
+def _exact(*numbers: Decimal):
+    """Decimal-context wide enough for sums, products, and prefix re-scalings of `numbers` to be exact.
+    The default context rounds every result to 28 significant digits."""
+    digits = 0
+    for num in numbers:
+        if isinstance(num, Decimal) and num.is_finite():
+            tup = num.as_tuple()
+            digits += len(tup.digits) + abs(tup.exponent)
+    with localcontext() as ctx:
+        # The extra 100 digits cover scaling across the full (48 decade) range of prefixes, twice, plus `EPSILON`
+        ctx.prec = max(ctx.prec, digits + 100)
+        yield ctx
 
 
 class Prefix(Enum):
@@ -88,7 +104,8 @@ class Prefix(Enum):
             exptemp = e(targ)
 
             # Scale the other number
-            new_num = other.number * Decimal(10) ** (targ - exptemp.symbol.value)
+            with _exact(other.number):
+                new_num = other.number * Decimal(10) ** (targ - exptemp.symbol.value)
 
             # And create a corresponding `Prefixed`
             return Prefixed.new(new_num, exptemp.symbol)
@@ -198,15 +215,21 @@ class Prefixed(BaseModel):
     # def __get_validators__(cls):
     #     yield cls.validate
 
+    def _value(self) -> Decimal:
+        """Our exact value, as a (prefix-free) `Decimal`"""
+        with _exact(self.number):
+            return self.number.scaleb(self.prefix.value)
+
     def __hash__(self):
-        return hash((self.number, self.prefix))
+        # Hash by value, so that equal numbers with different prefixes hash equally
+        return hash(self._value())
 
     def __int__(self) -> int:
-        return int(self.number) * 10**self.prefix.value
+        return int(self._value())
 
     def __float__(self) -> float:
         """Convert to float"""
-        return float(self.number) * 10**self.prefix.value
+        return float(self._value())
 
     def __neg__(self) -> "Prefixed":
         return Prefixed.new(-self.number, self.prefix)
@@ -216,17 +239,21 @@ class Prefixed(BaseModel):
 
     def __mul__(self, other) -> "Prefixed":
         if isinstance(other, Prefixed):
-            return (self.number * other.number * self.prefix * other.prefix).scale()
+            with _exact(self.number, other.number):
+                return (self.number * other.number * self.prefix * other.prefix).scale()
         elif not isinstance(other, (str, int, float, Decimal)):
             return NotImplemented
-        return Prefixed.new(self.number * Decimal(str(other)), self.prefix).scale()
+        with _exact(self.number, Decimal(str(other))):
+            return Prefixed.new(self.number * Decimal(str(other)), self.prefix).scale()
 
     def __rmul__(self, other) -> "Prefixed":
         if isinstance(other, Prefixed):
-            return (self.number * other.number * self.prefix * other.prefix).scale()
+            with _exact(self.number, other.number):
+                return (self.number * other.number * self.prefix * other.prefix).scale()
         elif not isinstance(other, (str, int, float, Decimal)):
             return NotImplemented
-        return Prefixed.new(self.number * Decimal(str(other)), self.prefix).scale()
+        with _exact(self.number, Decimal(str(other))):
+            return Prefixed.new(self.number * Decimal(str(other)), self.prefix).scale()
 
     def __truediv__(self, other) -> "Prefixed":
         if isinstance(other, Prefixed):
@@ -296,7 +323,8 @@ class Prefixed(BaseModel):
     def scale(self, prefix: Prefix = None) -> "Prefixed":
         """Scale to a new `Prefix`"""
         if isinstance(prefix, Prefix):
-            newnum = self.number * Decimal(10) ** (self.prefix.value - prefix.value)
+            with _exact(self.number):
+                newnum = self.number * Decimal(10) ** (self.prefix.value - prefix.value)
             return Prefixed.new(newnum, prefix)
         else:
             newpref = Prefix.closest(abs(self.number).log10() + self.prefix.value)
@@ -310,28 +338,28 @@ class Prefixed(BaseModel):
 
     # Comparison operators that respect class convention
     def __lt__(self, other) -> bool:
-        lhs, rhs = _scale_to_smaller(self, other)
-        return round(lhs.number, EPSILON) < round(rhs.number, EPSILON)
+        lhs, rhs = _comparable(self, other)
+        return lhs < rhs
 
     def __le__(self, other) -> bool:
-        lhs, rhs = _scale_to_smaller(self, other)
-        return round(lhs.number, EPSILON) <= round(rhs.number, EPSILON)
+        lhs, rhs = _comparable(self, other)
+        return lhs <= rhs
 
     def __eq__(self, other) -> bool:
-        lhs, rhs = _scale_to_smaller(self, other)
-        return round(lhs.number, EPSILON) == round(rhs.number, EPSILON)
+        lhs, rhs = _comparable(self, other)
+        return lhs == rhs
 
     def __ne__(self, other) -> bool:
-        lhs, rhs = _scale_to_smaller(self, other)
-        return round(lhs.number, EPSILON) != round(rhs.number, EPSILON)
+        lhs, rhs = _comparable(self, other)
+        return lhs != rhs
 
     def __gt__(self, other) -> bool:
-        lhs, rhs = _scale_to_smaller(self, other)
-        return round(lhs.number, EPSILON) > round(rhs.number, EPSILON)
+        lhs, rhs = _comparable(self, other)
+        return lhs > rhs
 
     def __ge__(self, other) -> bool:
-        lhs, rhs = _scale_to_smaller(self, other)
-        return round(lhs.number, EPSILON) >= round(rhs.number, EPSILON)
+        lhs, rhs = _comparable(self, other)
+        return lhs >= rhs
 
 
 # Union of the types which can be converted to `Prefixed`
@@ -357,24 +385,26 @@ def to_prefixed(v: Union[Prefixed, ToPrefixed]) -> Prefixed:
 
 def _add(lhs: Prefixed, rhs: Prefixed) -> Prefixed:
     """`Prefixed` Addition"""
-    if lhs.prefix == rhs.prefix:
-        return Prefixed.new(lhs.number + rhs.number, lhs.prefix)
+    with _exact(lhs.number, rhs.number):
+        if lhs.prefix == rhs.prefix:
+            return Prefixed.new(lhs.number + rhs.number, lhs.prefix)
 
-    # Different prefix values. Scale to the smaller of the two
-    smaller = lhs.prefix if lhs.prefix.value < rhs.prefix.value else rhs.prefix
-    newnum = lhs.scale(smaller).number + rhs.scale(smaller).number
-    return Prefixed.new(newnum, smaller)
+        # Different prefix values. Scale to the smaller of the two
+        smaller = lhs.prefix if lhs.prefix.value < rhs.prefix.value else rhs.prefix
+        newnum = lhs.scale(smaller).number + rhs.scale(smaller).number
+        return Prefixed.new(newnum, smaller)
 
 
 def _subtract(lhs: Prefixed, rhs: Prefixed) -> Prefixed:
     """`Prefixed` Subtraction"""
-    if lhs.prefix == rhs.prefix:
-        return Prefixed.new(lhs.number - rhs.number, lhs.prefix)
+    with _exact(lhs.number, rhs.number):
+        if lhs.prefix == rhs.prefix:
+            return Prefixed.new(lhs.number - rhs.number, lhs.prefix)
 
-    # Different prefix values. Scale to the smaller of the two
-    smaller = lhs.prefix if lhs.prefix.value < rhs.prefix.value else rhs.prefix
-    newnum = lhs.scale(smaller).number - rhs.scale(smaller).number
-    return Prefixed.new(newnum, smaller)
+        # Different prefix values. Scale to the smaller of the two
+        smaller = lhs.prefix if lhs.prefix.value < rhs.prefix.value else rhs.prefix
+        newnum = lhs.scale(smaller).number - rhs.scale(smaller).number
+        return Prefixed.new(newnum, smaller)
 
 
 def _scale_to_smaller(
@@ -386,13 +416,21 @@ def _scale_to_smaller(
     and is converted before scaling."""
 
     other = to_prefixed(other)
-    smaller = (
-        me.prefix
-        if me.number * Decimal(10**me.prefix.value)
-        < other.number * Decimal(10**other.prefix.value)
-        else other.prefix
-    )
+    smaller = me.prefix if me.prefix.value < other.prefix.value else other.prefix
     return me.scale(smaller), other.scale(smaller)
+
+
+def _comparable(
+    me: Prefixed, other: Union[Prefixed, ToPrefixed]
+) -> Tuple[Decimal, Decimal]:
+    """# Get the comparable values of two `Prefixed` numbers:
+    scaled to the smaller of the two prefixes, and rounded to `EPSILON` decimal places.
+    Rounding of numbers many decades apart requires more than the default `Decimal` precision."""
+
+    other = to_prefixed(other)
+    with _exact(me.number, other.number):
+        lhs, rhs = _scale_to_smaller(me, other)
+        return round(lhs.number, EPSILON), round(rhs.number, EPSILON)
 
 
 # Common prefixes as single-character identifiers, and exposed in the module namespace.
